@@ -648,7 +648,10 @@ class LineWorld:
     def _op_labels(self, positions, kind='op'):
         labels = []
         first = self.spec.get('first_op')
+        fpos = self.spec.get('first_pos')
         fresh = first is not None and not any(self.used)
+        if fresh and fpos is not None and kind == 'op':
+            positions = [p for p in positions if p == fpos]     # ... injected at position `first_pos`
         for i in range(len(self.ops)):
             if fresh and i != first:
                 continue       # this job covers the executions whose FIRST injected operation is `first`
